@@ -454,7 +454,7 @@ def check_ownership(ctx, rep):
                 # the raw pointer must be what the function returns
                 dl = t["dest"]["l"]
                 flows = False
-                for bi2, si, rv in b.defs().get(0, []):
+                for bi2, si, rv in _flow_defs(b, 0):
                     if si == "term":
                         flows = flows or (bi2 == bi)
                     else:
@@ -861,12 +861,30 @@ def check_verb_delegation(ctx, rep):
 
 
 
+def _flow_defs(b, local, seen_l=None):
+    """definitions that can reach `local` through plain copies / casts of other locals (a spliced helper hands its result over in
+    a local that every one of its return paths assigns)"""
+    seen_l = seen_l if seen_l is not None else set()
+    out = []
+    if local in seen_l:
+        return out
+    seen_l.add(local)
+    for bi2, si, rv in b.defs().get(local, []):
+        if si != "term" and rv["k"] in ("use", "cast"):
+            pl = op_place(rv["op"])
+            if pl is not None and not pl["p"] and (pl["l"] > b.arg_count) and len(b.defs().get(pl["l"], [])) != 1:
+                out += _flow_defs(b, pl["l"], seen_l)
+                continue
+        out.append((bi2, si, rv))
+    return out
+
+
 def _foreign_char_returns(prog, b, seen):
     """[(block, what)] for every value `b` can return that is neither null nor CString::into_raw; a private helper of the C API
     that itself only returns such values is looked through"""
     bad = []
     seen = seen | {b.id}
-    for bi2, si, rv in b.defs().get(0, []):
+    for bi2, si, rv in _flow_defs(b, 0):
         if si == "term":
             t = b.term(bi2)
             nm = strip_generics(mir.callee_name(t) or "")
